@@ -1107,9 +1107,9 @@ theorem Inv.rename {st : St} (h : Inv st) {sch' : Schema.St} (hwf : Schema.WF sc
     rw [b3, b1, hc3a, hc3u] at this
     exact ⟨this, trivial⟩
 
-theorem step_schema_setAlias (st : St) (u : Nat) (a : String) (sb : Bool) :
-    step false st (.schema (.setAlias u a sb)) =
-      { st with sch := Schema.step false st.sch (.setAlias u a sb) } := rfl
+theorem step_schema_setAlias_true (st : St) (u : Nat) (a : String) :
+    step false st (.schema (.setAlias u a true)) =
+      { st with sch := Schema.step false st.sch (.setAlias u a true) } := rfl
 
 theorem step_schema_substitute (st : St) (m : List (String × String)) :
     step false st (.schema (.substitute m)) =
@@ -1140,84 +1140,207 @@ theorem setAlias_spec {sch : Schema.St} (h : Schema.WF sch) {u : Nat} {a : Strin
     rw [(updateState_spec hb (Or.inl rfl)).2]
     rfl
 
-/-- `setAlias … subst=false` is admissible when no definition mentions the alias that is replaced -/
-def Unmentioned (s : List Cst) (u : Nat) : Prop :=
-  ∀ c ∈ s, c.uid = u → ∀ d ∈ s, c.alias ∉ d.defn.mentions
+theorem setAl_facts {s : List Cst} (hn : (uids s).Nodup) (hdist : (s.map (·.alias)).Nodup) {c : Cst}
+    (hc : c ∈ s) {u : Nat} (hcu : c.uid = u) (a : String) :
+    ∀ c1 ∈ s, (setAl u a c1).uid = c1.uid ∧ (setAl u a c1).kind = c1.kind ∧
+      (setAl u a c1).defn = c1.defn ∧
+      (setAl u a c1).alias = (fun n => if n == c.alias then a else n) c1.alias ∧
+      (c1.uid ≠ u → setAl u a c1 = c1) := by
+  intro c1 hc1
+  unfold setAl
+  by_cases h1 : c1.uid = u
+  · have h1' : (c1.uid == u) = true := by simpa using h1
+    have : c1 = c := eq_of_uid_eq hn hc1 hc (h1.trans hcu.symm)
+    subst this
+    rw [if_pos h1']
+    simp [h1]
+  · have h1' : (c1.uid == u) = false := by simpa using h1
+    have hna : c1.alias ≠ c.alias := by
+      intro e1
+      exact h1 (by rw [eq_of_alias_eq hdist hc1 hc e1]; exact hcu)
+    rw [if_neg (by simp [h1'])]
+    simp [hna]
 
-theorem Inv.setAlias {st : St} (h : Inv st) (u : Nat) (a : String) (sb : Bool)
-    (hsb : sb = false → Unmentioned st.sch.store u)
-    (hd : AliasesDistinct (step false st (.schema (.setAlias u a sb))).sch) :
-    Inv (step false st (.schema (.setAlias u a sb))) := by
-  rw [step_schema_setAlias] at hd ⊢
-  have hwf' : Schema.WF (Schema.step false st.sch (.setAlias u a sb)) := h.wf.setAlias u a sb
+theorem Inv.setAliasTrue {st : St} (h : Inv st) (u : Nat) (a : String)
+    (hd : AliasesDistinct (step false st (.schema (.setAlias u a true))).sch) :
+    Inv (step false st (.schema (.setAlias u a true))) := by
+  rw [step_schema_setAlias_true] at hd ⊢
+  have hwf' : Schema.WF (Schema.step false st.sch (.setAlias u a true)) := h.wf.setAlias u a true
   cases hat : st.sch.at u with
   | none =>
-    have e : Schema.step false st.sch (.setAlias u a sb) = st.sch := by
+    have e : Schema.step false st.sch (.setAlias u a true) = st.sch := by
       unfold Schema.step; simp only; rw [hat]
     rw [e]; exact h
   | some c =>
     by_cases hne : c.alias = a
-    · have e : Schema.step false st.sch (.setAlias u a sb) = st.sch := by
+    · have e : Schema.step false st.sch (.setAlias u a true) = st.sch := by
         unfold Schema.step; simp only; rw [hat]; simp only; rw [if_pos hne]
       rw [e]; exact h
-    · have hst := setAlias_spec h.wf sb hat hne
+    · have hst := setAlias_spec h.wf true hat hne
       obtain ⟨hc, hcu⟩ := mem_of_at hat
       have hn := h.wf.base.nodup
-      generalize Schema.step false st.sch (.setAlias u a sb) = sch' at hd hwf' hst ⊢
+      generalize Schema.step false st.sch (.setAlias u a true) = sch' at hd hwf' hst ⊢
       have hd0 : AliasesDistinct sch' := hd
-      -- the renaming
-      have hal : ∀ c1 ∈ st.sch.store, (setAl u a c1).uid = c1.uid ∧ (setAl u a c1).kind = c1.kind ∧
-          (setAl u a c1).defn = c1.defn ∧
-          (setAl u a c1).alias = (fun n => if n == c.alias then a else n) c1.alias := by
+      have hal := setAl_facts hn h.dist hc hcu a
+      simp only [if_true] at hst
+      rw [List.map_map] at hst
+      refine h.rename hwf' hd0 (fun n => if n == c.alias then a else n) _ hst ?_
+      intro c1 hc1
+      obtain ⟨b1, b2, b3, b4, _⟩ := hal c1 hc1
+      refine ⟨b1, b2, b4, ?_, ?_⟩
+      · intro he
+        show renameDef _ (setAl u a c1).defn = _
+        rw [b3, he]; rfl
+      · intro l hl
+        show renameDef _ (setAl u a c1).defn = _
+        rw [b3, hl]
+        show Def.union _ = _
+        congr 1
+        apply List.map_congr_left
+        intro n _
+        by_cases hn1 : n = c.alias <;> simp [hn1]
+
+/-- `SetAliasFor(u, a, substitute = false)` as repaired: the dependants of `u`, collected before the
+rename, are reset; what does not depend on `u` does not mention the old alias, and nothing that
+has a value mentions the new one -/
+theorem Inv.setAliasFalse {st : St} (h : Inv st) (u : Nat) (a : String)
+    (hd : AliasesDistinct (step false st (.schema (.setAlias u a false))).sch) :
+    Inv (step false st (.schema (.setAlias u a false))) := by
+  have hwf' : Schema.WF (Schema.step false st.sch (.setAlias u a false)) := h.wf.setAlias u a false
+  have hn := h.wf.base.nodup
+  cases hat : st.sch.at u with
+  | none =>
+    have hcont : st.sch.contains u = false := by unfold Schema.St.contains; rw [hat]; rfl
+    have e : step false st (.schema (.setAlias u a false)) = st := by
+      unfold step
+      simp only [hcont, Bool.false_or, Bool.not_false, if_true]
+      have e' : Schema.step false st.sch (.setAlias u a false) = st.sch := by
+        unfold Schema.step; simp only; rw [hat]
+      rw [e']
+    rw [e]; exact h
+  | some c =>
+    have hcont : st.sch.contains u = true := by unfold Schema.St.contains; rw [hat]; rfl
+    obtain ⟨hc, hcu⟩ := mem_of_at hat
+    have hu : u ∈ uids st.sch.store := mem_uids.2 ⟨c, hc, hcu⟩
+    by_cases hne : c.alias = a
+    · have e : step false st (.schema (.setAlias u a false)) = st := by
+        unfold step
+        simp only [hcont, Bool.false_or, Bool.not_true, Bool.false_eq_true, if_false]
+        rw [ensureGraph_valid h.wf.valid, hat]
+        have e' : Schema.step false st.sch (.setAlias u a false) = st.sch := by
+          unfold Schema.step; simp only; rw [hat]; simp only; rw [if_pos hne]
+        simp only [Option.map_some, hne, beq_self_eq_true, if_true]
+        rw [e']
+      rw [e]; exact h
+    · have e : step false st (.schema (.setAlias u a false)) =
+          St.resetItems { st with sch := Schema.step false st.sch (.setAlias u a false) }
+            (Graph.expandOutputs st.sch.graph [u]) u := by
+        unfold step
+        simp only [hcont, Bool.false_or, Bool.not_true, Bool.false_eq_true, if_false]
+        rw [ensureGraph_valid h.wf.valid, hat]
+        have : ((some c).map (·.alias) == some a) = false := by simpa using hne
+        rw [this]
+        simp only [Bool.false_eq_true, if_false]
+      rw [e] at hd ⊢
+      have hst := setAlias_spec h.wf false hat hne
+      simp only [Bool.false_eq_true, if_false] at hst
+      have hXm := mem_expansion h.wf.cur hu
+      generalize Schema.step false st.sch (.setAlias u a false) = sch' at hd hwf' hst ⊢
+      obtain ⟨r1, r2⟩ := resetItems_spec (Graph.expandOutputs st.sch.graph [u]) u ({ st with sch := sch' } : St)
+      have hsch : (St.resetItems { st with sch := sch' } (Graph.expandOutputs st.sch.graph [u]) u).sch = sch' := r1
+      have hd0 : (sch'.store.map (·.alias)).Nodup := by rw [hsch] at hd; exact hd
+      have hn' : (uids sch'.store).Nodup := hwf'.base.nodup
+      have hal := setAl_facts hn h.dist hc hcu a
+      have hmem' : ∀ c1 ∈ st.sch.store, setAl u a c1 ∈ sch'.store := by
         intro c1 hc1
-        unfold setAl
-        by_cases h1 : c1.uid = u
-        · have h1' : (c1.uid == u) = true := by simpa using h1
-          have : c1 = c := eq_of_uid_eq hn hc1 hc (h1.trans hcu.symm)
-          subst this
-          rw [if_pos h1']
-          simp
-        · have h1' : (c1.uid == u) = false := by simpa using h1
-          have hna : c1.alias ≠ c.alias := by
-            intro e1
-            exact h1 (by rw [eq_of_alias_eq h.dist hc1 hc e1]; exact hcu)
-          rw [if_neg (by simp [h1'])]
-          simp [hna]
-      cases sb with
-      | true =>
-        simp only [if_true] at hst
-        rw [List.map_map] at hst
-        refine h.rename hwf' hd0 (fun n => if n == c.alias then a else n) _ hst ?_
+        rw [hst]; exact List.mem_map.2 ⟨c1, hc1, rfl⟩
+      have hk1 : ∀ c1 ∈ st.sch.store, ({ st with sch := sch' } : St).kindOf c1.uid = some c1.kind := by
         intro c1 hc1
-        obtain ⟨b1, b2, b3, b4⟩ := hal c1 hc1
-        refine ⟨b1, b2, b4, ?_, ?_⟩
-        · intro he
-          show renameDef _ (setAl u a c1).defn = _
-          rw [b3, he]; rfl
-        · intro l hl
-          show renameDef _ (setAl u a c1).defn = _
-          rw [b3, hl]
-          show Def.union _ = _
-          congr 1
-          apply List.map_congr_left
-          intro n _
-          by_cases hn1 : n = c.alias <;> simp [hn1]
-      | false =>
-        simp only [Bool.false_eq_true, if_false] at hst
-        refine h.rename hwf' hd0 (fun n => if n == c.alias then a else n) _ hst ?_
-        intro c1 hc1
-        obtain ⟨b1, b2, b3, b4⟩ := hal c1 hc1
-        refine ⟨b1, b2, b4, fun he => by rw [b3, he], ?_⟩
+        obtain ⟨b1, b2, _⟩ := hal c1 hc1
+        rw [← b1, kindOf_of_mem (st := { st with sch := sch' }) hn' (hmem' c1 hc1), b2]
+      have hold : findAliasL st.sch.store c.alias = some u := by
+        rw [findAliasL_of_distinct h.dist hc, hcu]
+      -- the constituents that do not depend on `u`
+      have hedge : ∀ c1 ∈ st.sch.store, ∀ m ∈ c1.defn.mentions, ∀ w', findAliasL st.sch.store m = some w' →
+          (w', c1.uid) ∈ Graph.edges st.sch.graph := fun c1 hc1 m hm w' hw' =>
+        (h.wf.cur.edges w' c1.uid).2 ⟨c1, hc1, rfl, mem_inputsOfL.2 ⟨m, hm, hw'⟩⟩
+      have hnotold : ∀ c1 ∈ st.sch.store, ¬ ReachPlus (Graph.edges st.sch.graph) u c1.uid →
+          ∀ m ∈ c1.defn.mentions, m ≠ c.alias := by
+        intro c1 hc1 hq m hm e1
+        apply hq
+        exact ⟨c1.uid, hedge c1 hc1 m hm u (by rw [e1]; exact hold), Reach.refl _⟩
+      refine ⟨by rw [hsch]; exact hwf', hd, ?_⟩
+      intro w v hkw hvw
+      have hkw1 : ({ st with sch := sch' } : St).kindOf w = some .term := by
+        rw [← kindOf_congr (st := { st with sch := sch' })
+          (st' := St.resetItems { st with sch := sch' } (Graph.expandOutputs st.sch.graph [u]) u)
+          (by rw [r1])]
+        exact hkw
+      obtain ⟨c', _, hc', hc'u, hc'k⟩ := kindOf_eq_some hkw1
+      have hc'' : c' ∈ st.sch.store.map (setAl u a) := by rw [← hst]; exact hc'
+      obtain ⟨c0, hc0, hAc⟩ := List.mem_map.1 hc''
+      obtain ⟨a1, a2, _⟩ := hal c0 hc0
+      have hkw0 : st.kindOf w = some .term := by
+        rw [← hc'u, ← hAc, a1, kindOf_of_mem hn hc0, ← a2, hAc, hc'k]
+      have hdata : st.dataFor w = some v := by
+        by_cases hX : w ∈ Graph.expandOutputs st.sch.graph [u] ∧ w ≠ u
+        · rw [(r2 w).1 ⟨hX.1, hX.2, hkw1⟩] at hvw
+          cases hvw
+        · rw [(r2 w).2 (fun h' => hX ⟨h'.1, h'.2.1⟩)] at hvw
+          exact hvw
+      obtain ⟨t, ht⟩ := h.val w v hkw0 hdata
+      have hq : ¬ ReachPlus (Graph.edges st.sch.graph) u w := by
+        by_cases hwu : w = u
+        · rw [hwu]
+          have := ht.typed
+          rw [hwu] at this
+          exact this.acyclic h.wf.cur hn u (Reach.refl _)
+        · intro hp
+          by_cases hX : w ∈ Graph.expandOutputs st.sch.graph [u]
+          · rw [(r2 w).1 ⟨hX, hwu, hkw1⟩] at hvw
+            cases hvw
+          · exact hX ((hXm w).2 hp.reach)
+      rw [hsch]
+      refine ⟨(fun n => if n == c.alias then a else n) t,
+        TV.transfer (fun n => if n == c.alias then a else n)
+          (fun x => ¬ ReachPlus (Graph.edges st.sch.graph) u x) ?_ ?_ ?_ ht hq⟩
+      · intro c1 hc1 hq1
+        obtain ⟨b1, b2, b3, b4, _⟩ := hal c1 hc1
+        refine ⟨setAl u a c1, hmem' c1 hc1, b1, b2, b4, fun he => by rw [b3, he], ?_⟩
         intro l hl
         rw [b3, hl]
         congr 1
-        have hun := hsb rfl c hc hcu c1 hc1
-        rw [hl] at hun
         have : ∀ n ∈ l, (fun n => if n == c.alias then a else n) n = n := by
           intro n hn1
-          have : n ≠ c.alias := fun e1 => hun (e1 ▸ hn1)
+          have : n ≠ c.alias := hnotold c1 hc1 hq1 n (by rw [hl]; exact hn1)
           simp [this]
         rw [List.map_congr_left this, List.map_id']
+      · intro c1 hc1 hq1 m hm w' hw'
+        have he := hedge c1 hc1 m hm w' hw'
+        have hmne : m ≠ c.alias := hnotold c1 hc1 hq1 m hm
+        have hw'u : w' ≠ u := by
+          intro e1
+          apply hq1
+          exact ⟨c1.uid, e1 ▸ he, Reach.refl _⟩
+        obtain ⟨c3, hc3, hc3u, hc3a⟩ := findAliasL_mem hw'
+        obtain ⟨_, _, _, _, b5⟩ := hal c3 hc3
+        have hc3' : c3 ∈ sch'.store := by
+          have := hmem' c3 hc3
+          rw [b5 (by rw [hc3u]; exact hw'u)] at this
+          exact this
+        have hres := findAliasL_of_distinct hd0 hc3'
+        rw [hc3a, hc3u] at hres
+        refine ⟨by simp only [beq_iff_eq, hmne, if_false]; exact hres, ?_⟩
+        rintro ⟨b, hb, hr⟩
+        exact hq1 ⟨b, hb, hr.tail he⟩
+      · intro c1 hc1 _ hkb
+        have hnot : ¬ (c1.uid ∈ Graph.expandOutputs st.sch.graph [u] ∧ c1.uid ≠ u ∧
+            ({ st with sch := sch' } : St).kindOf c1.uid = some .term) := by
+          rintro ⟨_, _, hk3⟩
+          rw [hk1 c1 hc1, hkb] at hk3
+          cases hk3
+        rw [(r2 c1.uid).2 hnot]
+        rfl
 
 theorem Inv.substitute {st : St} (h : Inv st) (m : List (String × String))
     (hd : AliasesDistinct (step false st (.schema (.substitute m))).sch) :
@@ -1421,23 +1544,17 @@ theorem Inv.fresh {st : St} (h : Inv st) : st.fresh = true := by
 /-! ## §9 histories -/
 
 /-- admissible operation in a state: no `load`; after `insert`, `setAlias`, `substitute` the aliases
-are still pairwise distinct (the identity manager of `RSCore` issues unique aliases); `setAlias`
-without substitution only for an alias that no definition mentions -/
+are still pairwise distinct (the identity manager of `RSCore` issues unique aliases) -/
 def Admissible (st : St) : Op → Prop
   | .schema (.load _) => False
   | .schema (.insert c) => AliasesDistinct (step false st (.schema (.insert c))).sch
-  | .schema (.setAlias u a true) => AliasesDistinct (step false st (.schema (.setAlias u a true))).sch
-  | .schema (.setAlias u a false) =>
-      Unmentioned st.sch.store u ∧ AliasesDistinct (step false st (.schema (.setAlias u a false))).sch
+  | .schema (.setAlias u a sb) => AliasesDistinct (step false st (.schema (.setAlias u a sb))).sch
   | .schema (.substitute m) => AliasesDistinct (step false st (.schema (.substitute m))).sch
   | _ => True
 
 def AdmissibleFrom : St → List Op → Prop
   | _, [] => True
   | st, op :: ops => Admissible st op ∧ AdmissibleFrom (step false st op) ops
-
-instance (s : List Cst) (u : Nat) : Decidable (Unmentioned s u) := by
-  unfold Unmentioned; infer_instance
 
 instance (st : St) (op : Op) : Decidable (Admissible st op) := by
   unfold Admissible
@@ -1465,8 +1582,8 @@ theorem Inv.step {st : St} (h : Inv st) {op : Op} (ha : Admissible st op) : Inv 
     | setDef u d => exact h.setDef u d
     | setAlias u a sb =>
       cases sb with
-      | true => exact h.setAlias u a true (fun e => by cases e) ha
-      | false => exact h.setAlias u a false (fun _ => ha.1) ha.2
+      | true => exact h.setAliasTrue u a ha
+      | false => exact h.setAliasFalse u a ha
     | substitute m => exact h.substitute m ha
   | addElem u => exact h.addElem u
   | setText u keys => exact h.setText u keys
@@ -1486,22 +1603,20 @@ theorem Inv.foldl (ops : List Op) : ∀ st : St, Inv st → AdmissibleFrom st op
 theorem Inv.run {ops : List Op} (ha : AdmissibleFrom {} ops) : Inv (run false ops) :=
   Inv.foldl ops {} Inv.init ha
 
-/-- histories along which aliases stay pairwise distinct (the discipline `RSCore` enforces), without
-`load` and without `setAlias … subst=false`, are admissible -/
+/-- histories without `load` along which aliases stay pairwise distinct (the discipline `RSCore`
+enforces) are admissible -/
 theorem admissibleFrom_of_distinct (ops : List Op) : ∀ st : St,
     (∀ op ∈ ops, ∀ c, op ≠ .schema (.load c)) →
-    (∀ op ∈ ops, ∀ u a, op ≠ .schema (.setAlias u a false)) →
     (∀ k, AliasesDistinct ((ops.take k).foldl (RSModel.step false) st).sch) → AdmissibleFrom st ops := by
   induction ops with
-  | nil => intro _ _ _ _; trivial
+  | nil => intro _ _ _; trivial
   | cons op ops ih =>
-    intro st hl hs hd
+    intro st hl hd
     have h1 : AliasesDistinct (RSModel.step false st op).sch := by
       have := hd 1
       rw [List.take_succ_cons, List.take_zero, List.foldl_cons, List.foldl_nil] at this
       exact this
-    refine ⟨?_, ih _ (fun o ho => hl o (List.mem_cons_of_mem _ ho))
-      (fun o ho => hs o (List.mem_cons_of_mem _ ho)) (fun k => ?_)⟩
+    refine ⟨?_, ih _ (fun o ho => hl o (List.mem_cons_of_mem _ ho)) (fun k => ?_)⟩
     · cases op with
       | schema sop =>
         cases sop with
@@ -1510,10 +1625,7 @@ theorem admissibleFrom_of_distinct (ops : List Op) : ∀ st : St,
         | updateState => trivial
         | erase u => trivial
         | setDef u d => trivial
-        | setAlias u a sb =>
-          cases sb with
-          | true => exact h1
-          | false => exact absurd rfl (hs _ (by simp) u a)
+        | setAlias u a sb => exact h1
         | substitute m => exact h1
       | addElem u => trivial
       | setText u keys => trivial
